@@ -443,10 +443,10 @@ def run(tree, rep, tier):
     g_ = build(ns_)
     cancel_ = g_.call_nodes(lambda c: dotted(c.func) == "self.setTimeout" and len(c.args) == 1 and isinstance(c.args[0], ast.Constant)
                             and c.args[0].value is None)
-    cm_ = tree.func(TR, "Connection", "connectionMade")
-    armed_ = [c for c in ast.walk(cm_) if isinstance(c, ast.Call) and dotted(c.func) == "self.setTimeout"]
-    rep.check("C06.R9", "Connection._negotiationSuccessful (reached by sender and receiver alike) cancels the handshake timer armed in "
-              "connectionMade, on every path", bool(armed_) and bool(cancel_) and g_.must_pass(cancel_, explicit_only=True), site(ns_, TR),
+    armed_ = [c for c in ast.walk(tree.cls(TR, "Connection")) if isinstance(c, ast.Call) and dotted(c.func) == "self.setTimeout" and c.args
+              and not (isinstance(c.args[0], ast.Constant) and c.args[0].value is None)]       # wherever the negotiation arms it
+    rep.check("C06.R9", "Connection._negotiationSuccessful (reached by sender and receiver alike) cancels the handshake timer, "
+              "on every path", bool(armed_) and bool(cancel_) and g_.must_pass(cancel_, explicit_only=True), site(ns_, TR),
               key="C06.R9:_negotiationSuccessful:timer-cancelled",
               what="the handshake timeout is no longer cancelled for every role when the record phase begins: on the side that does not "
                    "cancel it, timeoutConnection() drops a healthy established connection after TIMEOUT seconds - records sent after that are "
